@@ -20,8 +20,9 @@ func init() {
 			"(R4) loaders slice their input only at the decoder's count on its success edge and reject an empty payload; (R5) dump functions do not return bytes that alias recycled (pooled) storage; (R6) every constant-bound index/slice of a byte slice or string in the repo functions statically reachable from the loaders (incl. the error-message helpers) is dominated by a length test implying the bound. " +
 			"(R7) error discipline over package formats/dsd: " + repoErrText + ". " +
 			"(R8) the dump functions never write into memory that may belong to the caller: no append to, copy into or element store through a slice that is (a re-slice of) the serializer's result or the caller's own []byte (RAW hands the caller's slice through); (R9) FormatFromAccept strips media-type parameters (;q=...) from an element before it compares it with anything, wildcards included. " +
+			"(R10) the format Load/DecompressAndLoad report is 0 (error), the inner loader's result, the format handed to LoadAsFormat in the same return, or one validated by ValidateSerializationFormat on every path - never the compression wrapper's identifier. " +
 			"NOT decided: value equality through the third-party codecs (JSON/CBOR/MsgPack/YAML), compression correctness.",
-		Rules: []ruleFn{c09R1, c09R2, c09R3, c09R4, c09R5, c09R6, c09R8, c09R9,
+		Rules: []ruleFn{c09R1, c09R2, c09R3, c09R4, c09R5, c09R6, c09R8, c09R9, c09R10,
 			repoErrRuleFor("C09-R7", 12, func(c *Ctx, fn *ssa.Function) bool { return short(fn.Pkg.Pkg.Path()) == "formats/dsd" }, map[string]string{})},
 	})
 }
